@@ -58,11 +58,11 @@ def run(ctx):
         rep = json.load(f)
     # single-class findings first; a combination of classes that are each reported on their own is the same findings
     singles = set()
-    for fd in rep["findings"]:
+    for fd in (rep["findings"] or []):
         if fd["key"].startswith("accepted|") and len(fd.get("classes") or []) == 1:
             singles.add((fd["cfg"]["struct"], fd["classes"][0]))
     combined = 0
-    for fd in rep["findings"]:
+    for fd in (rep["findings"] or []):
         cls = fd.get("classes") or []
         if fd["key"].startswith("accepted|") and len(cls) > 1 and all((fd["cfg"]["struct"], c) in singles for c in cls):
             combined += 1
